@@ -606,6 +606,8 @@ pub struct HistoryRun<'a> {
     /// C18 only: a twin that is never restarted.
     pub twin: Option<Server>,
     held: BTreeMap<u32, Held>,
+    /// C10: address -> (client, instant until which the newest reply for that address promised it), from the ADVERTISED lease time
+    promises: BTreeMap<u32, (Vec<u8>, i64)>,
     pub trace: Vec<Op>,
     pub leg: &'a mut Leg,
     pub coords: Value,
@@ -646,6 +648,7 @@ impl<'a> HistoryRun<'a> {
             srv,
             twin,
             held: BTreeMap::new(),
+            promises: BTreeMap::new(),
             trace: Vec::new(),
             leg,
             coords,
@@ -842,6 +845,9 @@ impl<'a> HistoryRun<'a> {
                 }
                 for h in self.held.values_mut() {
                     h.expire -= d;
+                }
+                for p in self.promises.values_mut() {
+                    p.1 -= d;
                 }
                 self.leg.count("op_advance", 1);
                 Ok(())
@@ -1166,6 +1172,32 @@ impl<'a> HistoryRun<'a> {
 
         // ---- C10 ----
         if self.prop == Prop::C10 {
+            // promises made by EARLIER replies must still be backed by the store, whatever this message was about: the
+            // row of a promised address may only change through a newer reply for that same address
+            let this_addr = if let Outcome::Reply(rep) = &out { Some(rep.yiaddr) } else { None };
+            let mut broken: Vec<(u32, String)> = Vec::new();
+            for (a, (c, until)) in &self.promises {
+                if Some(*a) == this_addr || *until <= t_after + BOUNDARY {
+                    continue;
+                }
+                self.leg.count("earlier_promises_rechecked", 1);
+                match after.get(a) {
+                    None => broken.push((*a, format!("{} was promised to {} until {} ({} s from now) but its row is gone after a {} from {}", ipj(*a), hex(c), until, until - t_after, kind, hex(&ident)))),
+                    Some(row) if row.client != *c => broken.push((*a, format!("{} was promised to {} until {} but its row now names {}", ipj(*a), hex(c), until, hex(&row.client)))),
+                    Some(row) if row.expire < *until => broken.push((*a, format!("{} was promised to {} until {} ({} s from now) but after a {} from {} its row expires at {}", ipj(*a), hex(c), until, until - t_after, kind, hex(&ident), row.expire))),
+                    _ => {}
+                }
+            }
+            for (a, d) in broken {
+                self.promises.remove(&a);
+                self.violate("earlier-promise-no-longer-backed-by-record", d);
+            }
+            if let Outcome::Reply(rep) = &out {
+                if let Some(v) = rep.lease.as_ref().filter(|v| v.len() == 4) {
+                    let l = u32::from_be_bytes([v[0], v[1], v[2], v[3]]) as i64;
+                    self.promises.insert(rep.yiaddr, (ident.clone(), t_before + l));
+                }
+            }
             if let Outcome::Reply(rep) = &out {
                 match &rep.lease {
                     None => self.violate(&format!("no-lease-time/{}", kind), format!("reply to {} carries no option 51", kind)),
@@ -1321,7 +1353,7 @@ fn rule_for(p: Prop) -> &'static str {
     match p {
         Prop::C01 => "generated DHCP histories (3-6 clients incl. identity overlaps, pools of 1-5 addresses, reservations, clock advances around lease boundaries, config switches) through dhcp::handle_pkt; every reply checked against the ownership map built from the rows the server recorded; distinct = (message kind, address named via, server-id kind, client holds a lease, pool contention, outcome)",
         Prop::C09 => "same histories; every answered step checked: held address returned, named held address returned, refusal only when every pool address is held by another client; distinct = (message kind, named via, server-id kind, holds, contention, outcome)",
-        Prop::C10 => "same histories with renewal rhythms; every reply: option 51 present, 300<=L<=86400, recorded expiry-start = L, recorded expiry >= t+L; distinct = step classes plus lease-length buckets reached",
+        Prop::C10 => "same histories with renewal rhythms; every reply: option 51 present, 300<=L<=86400, recorded expiry-start = L, recorded expiry >= t+L; after EVERY later message each still-running earlier promise (address, client, t+L) must still be backed by its row unless a newer reply for that address superseded it; distinct = step classes plus lease-length buckets reached",
         Prop::C13 => "same histories plus every message type 0..255/absent, server-id absent/own/foreign/wrong length, extra options, interfaces without a pool; full-row snapshot diff around every call and header/option echo comparison; distinct = step classes",
         Prop::C18 => "file-backed histories with restarts (close + reopen) in lock-step with a never-restarted twin: rows identical across reopen, replies identical to the twin's; distinct = step classes",
         Prop::C20 => "same histories; after every step Pool::get_pool_metrics() compared with counts computed from the rows and the clock; distinct = step classes plus (live, expired) count buckets",
